@@ -872,6 +872,97 @@ def false_forces_false(fn, call):
     return (used, None if used else "the result is not used")
 
 
+def eval_term(t, env_of):
+    """value of a term over a small finite abstraction: `env_of(term)` gives 'Some' / 'None' (for an Option-valued leaf the
+    rule names), True / False, an int, or None for unknown.  Understands is_some / is_none / discriminants of such leaves,
+    bool -> integer conversions, integer arithmetic and comparisons, negation, constants.  None = not decidable here."""
+    v = env_of(t)
+    if v is not None:
+        return v
+    k = t[0]
+    if k in ("ref", "deref", "cast"):
+        return eval_term(t[1], env_of)
+    if k == "const":
+        return t[1] if isinstance(t[1], (bool, int)) else None
+    if k == "call":
+        m = t[1].split("::")[-1]
+        if m in ("is_some", "is_none") and t[2]:
+            x = eval_term(t[2][0], env_of)
+            if x in ("Some", "None"):
+                return (x == "Some") == (m == "is_some")
+            return None
+        if m in ("from", "into") and len(t[2]) == 1:
+            x = eval_term(t[2][0], env_of)
+            if isinstance(x, bool):
+                return int(x)
+            if isinstance(x, int):
+                return x
+            return None
+        if m in ("as_ref", "as_deref", "as_mut") and t[2]:
+            x = eval_term(t[2][0], env_of)
+            return x if x in ("Some", "None") else None
+        return None
+    if k == "discr":
+        x = eval_term(t[1], env_of)
+        if x in ("Some", "None") and len(t) > 3 and t[3]:
+            for (n, val) in t[3]:
+                if n == x:
+                    return val
+        return None
+    if k == "un":
+        x = eval_term(t[2], env_of)
+        if t[1] == "Not" and isinstance(x, bool):
+            return not x
+        return None
+    if k == "field":
+        b = t[1]
+        if b[0] == "bin" and b[1].endswith("WithOverflow"):
+            if t[2] == ".1":
+                return False
+            if t[2] == ".0":
+                return eval_term(("bin", b[1].replace("WithOverflow", ""), b[2], b[3]), env_of)
+        return None
+    if k == "bin":
+        a, b = eval_term(t[2], env_of), eval_term(t[3], env_of)
+        if a is None or b is None or a in ("Some", "None") or b in ("Some", "None"):
+            return None
+        op = t[1].replace("WithOverflow", "").replace("Unchecked", "")
+        try:
+            return {"Add": lambda: a + b, "Sub": lambda: a - b, "Mul": lambda: a * b, "Eq": lambda: a == b, "Ne": lambda: a != b,
+                    "Lt": lambda: a < b, "Le": lambda: a <= b, "Gt": lambda: a > b, "Ge": lambda: a >= b,
+                    "BitAnd": lambda: a & b, "BitOr": lambda: a | b, "BitXor": lambda: a ^ b}[op]()
+        except KeyError:
+            return None
+    return None
+
+
+def explore_under(fn, env_of, limit=4000):
+    """set of return blocks reachable from the entry when every switch whose discriminant `eval_term` decides under the
+    environment takes only the decided edge (undecidable switches take all edges): abstract execution of a loop-free body"""
+    out, seen, st = set(), set(), [0]
+    n = 0
+    while st and n < limit:
+        n += 1
+        b = st.pop()
+        if b in seen or fn.is_cleanup(b):
+            continue
+        seen.add(b)
+        t = fn.term(b)
+        if t["k"] == "return":
+            out.add(b)
+            continue
+        if t["k"] == "switch":
+            v = eval_term(origin(fn, t["discr"]), env_of)
+            if isinstance(v, bool):
+                v = int(v)
+            if isinstance(v, int):
+                hit = [tb for (val, tb) in t.get("targets", []) if val == v]
+                st.append(hit[0] if hit else t["otherwise"])
+                continue
+        st += fn.succ(b)
+    return out, seen
+
+
 def closures_in_term(t, out=None):
     """ids of closure bodies constructed inside a term"""
     if out is None:
